@@ -150,60 +150,32 @@ Proof.
 Qed.
 Print Assumptions attrs_after_register_refuted.
 
-Theorem attrs_after_register_refuted_cert20 :        (* known finding C05-certificate-type-kmip20-client *)
-  exists v o n s l st' u, srv_register v o n s l store0 = Ok (st', u) /\ get_attributes (2, 0) st' u = Err.
-Proof.
-  exists (1, 2), [97], 1600000000, (SCert CT_X_509 [48; 0]), []. eexists. eexists.
-  split; [vm_compute; reflexivity|vm_compute; reflexivity].
-Qed.
-Print Assumptions attrs_after_register_refuted_cert20.
-
-(* server side, every version, every object type *)
+(* every version, every object type, as the application receives it through the client *)
 Theorem attrs_after_register_partial : forall v o n s l st st' u v',
   store_ok st -> enums_ok s -> len_attr_consistent s l -> names_untyped l -> mask_attr_defined l ->
   srv_register v o n s l st = Ok (st', u) ->
-  srv_attrs v' st' u = Ok (expected_attrs v' u n ST_PRE_ACTIVE s l).
+  get_attributes v' st' u = Ok (expected_attrs v' u n ST_PRE_ACTIVE s l).
 Proof. exact attrs_after_register_l. Qed.
 Print Assumptions attrs_after_register_partial.
 
-(* through the client: everything but a certificate read under KMIP 2.0 *)
-Definition attrs_readable (v' : ver) (s : secret) : Prop := ver_ge v' (2, 0) = false \/ secret_class s <> CCert.
-Theorem attrs_through_client_partial : forall v o n s l st st' u v',
-  store_ok st -> enums_ok s -> len_attr_consistent s l -> names_untyped l -> mask_attr_defined l -> attrs_readable v' s ->
-  srv_register v o n s l st = Ok (st', u) ->
-  get_attributes v' st' u = Ok (expected_attrs v' u n ST_PRE_ACTIVE s l).
-Proof.
-  intros v o n s l st st' u v' F He Hl Hn Hm Hr H. unfold get_attributes.
-  rewrite (attrs_after_register_l _ _ _ _ _ _ _ _ v' F He Hl Hn Hm H). simpl. unfold client_attrs.
-  destruct Hr as [Hr|Hr]; [rewrite Hr; reflexivity|].
-  match goal with |- context [existsb ?f ?l0] => assert (X : existsb f l0 = false); [|rewrite X; rewrite andb_false_r; reflexivity] end.
-  apply not_true_is_false. intro X. apply existsb_exists in X. destruct X as [x [Hin Hx]].
-  unfold expected_attrs in Hin.
-  repeat (apply in_app_or in Hin; destruct Hin as [Hin|Hin]);
-    try (match type of Hin with In _ (if ?b then _ else _) => destruct b; [|contradiction Hin] end).
-  all: try (simpl in Hin; repeat (destruct Hin as [Hin|Hin]; [subst x; discriminate Hx|]); try contradiction Hin).
-  all: try (destruct s; simpl in Hin; try contradiction Hin; try (exfalso; apply Hr; reflexivity);
-            repeat (destruct Hin as [Hin|Hin]; [subst x; discriminate Hx|]); try contradiction Hin).
-  all: try (match type of Hin with In _ (indexed ?a ?i ?f ?l) =>
-              revert Hin; generalize i; induction l as [|y l' IHl]; intros i0 Hin; simpl in Hin;
-              [contradiction Hin|destruct Hin as [Hin|Hin]; [subst x; discriminate Hx|exact (IHl _ Hin)]] end).
-  all: try (match type of Hin with In _ (one _ (option_map _ ?o)) =>
-              destruct o; simpl in Hin; [destruct Hin as [Hin|Hin]; [subst x; discriminate Hx|contradiction Hin]|contradiction Hin] end).
-Qed.
-Print Assumptions attrs_through_client_partial.
-
 Example attrs_after_register_sat :
-  enums_ok ex_wrapped /\ names_untyped ex_attrs /\ mask_attr_defined ex_attrs /\ attrs_readable (2, 0) ex_wrapped.
+  enums_ok ex_wrapped /\ names_untyped ex_attrs /\ mask_attr_defined ex_attrs.
 Proof.
   split; [vm_compute; repeat split; intro H; discriminate H|]. split; [repeat constructor|].
-  split; [exists [4; 8]; split; [bits_forall|reflexivity]|right; discriminate].
+  exists [4; 8]; split; [bits_forall|reflexivity].
 Qed.
 
-(* not proved: the attribute set at any later point of any history (the frame argument of get_at_any_later_point carries over,
-   with State following Activate); checked on every history by the correspondence run instead *)
-Definition attrs_at_any_later_point_statement : Prop := forall v o n s l st st' u h v',
+(* the attribute set at any later point of any history without a Destroy of the object (other registrations, reads,
+   activations, destructions of others, foreign creations) and across restarts: only State moves, and only by an Activate of
+   this object; by induction over histories *)
+Theorem attrs_at_any_later_point : forall v o n s l st st' u h v',
   store_ok st -> enums_ok s -> len_attr_consistent s l -> names_untyped l -> mask_attr_defined l ->
   srv_register v o n s l st = Ok (st', u) -> Forall (not_destroying u) h ->
-  srv_attrs v' (run st' h) u =
-  Ok (expected_attrs v' u n (if existsb (fun x => match x with HActivate u' => (u' =? u) && is_crypto (secret_class s) | _ => false end) h
-                             then ST_ACTIVE else ST_PRE_ACTIVE) s l).
+  get_attributes v' (run st' h) u = Ok (expected_attrs v' u n (state_after u s h) s l).
+Proof. exact attrs_at_any_later_point_l. Qed.
+Print Assumptions attrs_at_any_later_point.
+
+Example state_after_sat :
+  state_after 1 ex_key [HRead; HActivate 2; HRestart] = ST_PRE_ACTIVE /\ state_after 1 ex_key [HRestart; HActivate 1; HForeign] = ST_ACTIVE /\
+  state_after 1 (SOpaque 2147483648 []) [HActivate 1] = ST_PRE_ACTIVE.
+Proof. repeat split. Qed.
